@@ -33,7 +33,10 @@ package pluginregistry
 //@ iface ModelPlugin.GetInfo() (info)
 //@   pure
 //@   ensures info != nil
+//@ ghost getPathValuesCalls int
+//@ ghost lastGetPathValuesPrefix string
 //@ iface ModelPlugin.GetPathValues(ctx, pathPrefix, jsonData) (values, err)
-//@   modifies checkFailures
+//@   modifies checkFailures, getPathValuesCalls, lastGetPathValuesPrefix
+//@   ensures getPathValuesCalls == old(getPathValuesCalls) + 1 && lastGetPathValuesPrefix == pathPrefix
 //@   ensures checkFailures == old(checkFailures) + ite(err == nil, 0, 1)
 //@   fresh values
